@@ -547,6 +547,23 @@ def _helpers(ctx, reqs, pending):
                 reqs.append(('stdFrameIndex', {'k': k, 'as_index': ai, 'n': n}))
                 pending.append(({'helper': '_standardize_frame_index', 'k': k, 'n': n, 'as_index': ai, 'layer': 'L2'}, impl))
                 ctx.case(path='helper')
+    # the same helper on VALUES of every kind (what may be handed in as a frame number): Python int, numpy integers, bool,
+    # numpy bool, floats, strings, None - against the model of the conversion the source applies first (T1c)
+    vals = [(3, {'kind': 'int', 'k': 3}), (0, {'kind': 'int', 'k': 0}), (np.uint8(3), {'kind': 'npint', 'k': 3}),
+            (np.int64(-1), {'kind': 'npint', 'k': -1}), (np.uint16(4), {'kind': 'npint', 'k': 4}),
+            (True, {'kind': 'bool', 'b': True}), (False, {'kind': 'bool', 'b': False}),
+            (np.True_, {'kind': 'npbool', 'b': True}), (1.0, {'kind': 'float', 'v': '1'}), (2.5, {'kind': 'float', 'v': '5/2'}),
+            (np.float32(1.0), {'kind': 'float', 'v': '1'}), ('2', {'kind': 'str', 'parsed': 2}), ('two', {'kind': 'str', 'parsed': None}),
+            (None, {'kind': 'none'})]
+    for n in (1, 3, 4):
+        for v, enc in vals:
+            for ai in (False, True):
+                st, val = _fetch(f, _Stub(n), v, ai)
+                impl = ('ok', int(val)) if st == 'ok' else ('err', _err_kind(val))
+                reqs.append(('stdFrameIndexV', {'v': enc, 'as_index': ai, 'n': n}))
+                pending.append(({'helper': '_standardize_frame_index', 'value': repr(v), 'kind': enc['kind'], 'n': n, 'as_index': ai,
+                                 'layer': 'L2'}, impl))
+                ctx.case(path='helper/value-kinds', number_given_as=enc['kind'])
     ctx.exhaustive.append(f'_standardize_frame_index on k,n in {rng.start}..{rng.stop - 1} x as_index')
 
 
